@@ -130,6 +130,11 @@ func runEnvLoad(c fw.Case) fw.Result {
 		y.WriteString("disable_env_expansion: true\n")
 	}
 	fmt.Fprintf(&y, "processes:\n  e0:\n    command: %s\n    description: %s\n    environment:\n      - %s\n", yq(cmdSrc), yq(descSrc), yq(envSrc))
+	// the working directory is expanded (once) like every other field: what is
+	// left after the load-time pass - an escaped $$, anything at all when
+	// expansion is disabled - is literal text (seeded change C17-r4-2)
+	wdSrc := "/tmp/pcv-wd/" + descSrc
+	fmt.Fprintf(&y, "    working_dir: %s\n", yq(wdSrc))
 	file, _ := sim.WriteTemp(dir, "pc.yaml", y.String())
 	opts := &loader.LoaderOptions{FileNames: []string{file}, EnvFileNames: []string{dotenv}, IsInternalLoader: true}
 	opts.DisableDotenv(false)
@@ -149,6 +154,7 @@ func runEnvLoad(c fw.Case) fw.Result {
 	}
 	chk("command", p.Command, cmdSrc)
 	chk("description", p.Description, descSrc)
+	chk("working_dir", p.WorkingDir, wdSrc)
 	if len(p.Environment) != 1 {
 		r.Add("C17", "load-expansion:environment", "environment %q", p.Environment)
 	} else {
